@@ -57,6 +57,23 @@ fn parse_body(toks: &[String]) -> (usize, OrderBook) {
     (k, OrderBook::new(seq, None, bids, asks))
 }
 
+/// `k seq | bids | asks` for `updr`: the update's sides hold the levels in the order given. `OrderBook::new`
+/// sorts, so the book is obtained the way a user gets an unsorted one: through the type's own
+/// `Deserialize` (the serialised form of a book built by `new`, with the level arrays replaced).
+fn parse_body_raw(toks: &[String]) -> (usize, OrderBook) {
+    let (k, sorted) = parse_body(toks);
+    let rest = &toks[3..];
+    let bar = rest.iter().position(|t| t == "|").expect("second |");
+    let raw = |ls: Vec<Level>| serde_json::to_value(ls).expect("levels serialise");
+    let mut v = serde_json::to_value(&sorted).expect("book serialises");
+    // `side` is skipped when serialising; the unit structs `Bids` / `Asks` deserialise from null
+    v["bids"]["side"] = serde_json::Value::Null;
+    v["asks"]["side"] = serde_json::Value::Null;
+    v["bids"]["levels"] = raw(parse_levels(&rest[..bar]));
+    v["asks"]["levels"] = raw(parse_levels(&rest[bar + 1..]));
+    (k, serde_json::from_value(v).expect("book deserialises"))
+}
+
 const DEPTHS: [usize; 3] = [0, 1, 3];
 
 fn observe(book: &OrderBook, lines: &mut Vec<String>) {
@@ -101,8 +118,8 @@ fn run() {
                     stream.push(MarketStreamEvent::Reconnecting(ExchangeId::Mock));
                     lines.push("skip".into());
                 }
-                "snap" | "upd" => {
-                    let (k, book) = parse_body(&op[1..]);
+                "snap" | "upd" | "updr" => {
+                    let (k, book) = if op[0] == "updr" { parse_body_raw(&op[1..]) } else { parse_body(&op[1..]) };
                     let stored = fmt_sides(&book);
                     let event = if op[0] == "snap" {
                         OrderBookEvent::Snapshot(book)
@@ -211,12 +228,13 @@ fn generate(seed: u64, n_cases: usize, tier: &str) {
                 lists.push(vec![a.clone(), b.clone()]);
             }
         }
-        for side in 0..2 {
+        for side in 0..4 {
             let fmt = |ls: &Vec<String>, seq: usize| {
-                if side == 0 {
-                    format!("upd 0 {seq} | {} | ", ls.join(" "))
+                let op = if side < 2 { "upd" } else { "updr" };
+                if side % 2 == 0 {
+                    format!("{op} 0 {seq} | {} | ", ls.join(" "))
                 } else {
-                    format!("upd 0 {seq} | | {}", ls.join(" "))
+                    format!("{op} 0 {seq} | | {}", ls.join(" "))
                 }
             };
             let mut seqs: Vec<Vec<&Vec<String>>> = vec![vec![]];
@@ -281,7 +299,9 @@ fn generate(seed: u64, n_cases: usize, tier: &str) {
                         update_levels(&mut rng, &grid, max_levels, zero_pct),
                     ),
                 };
-                out.line(format!("upd {k} {seq} | {} | {}", b.join(" "), a.join(" ")));
+                // `updr`: the levels reach `OrderBook::update` in the order written (not re-sorted)
+                let op = if rng.chance(40) { "updr" } else { "upd" };
+                out.line(format!("{op} {k} {seq} | {} | {}", b.join(" "), a.join(" ")));
             }
         }
         out.line("mgr");
